@@ -218,6 +218,7 @@ pub fn c04(ctx: &Ctx, rep: &mut Report) {
         if ctx.only.is_none() && (ctx.expired() || idx >= ctx.max_cases) {
             break;
         }
+        ctx.begin(idx);
         let mut rng = Rng::derive(&[ctx.seed, ctx.shard, idx, 4]);
         let fmt = if idx % 2 == 0 { Fmt::Fasta } else { Fmt::Fastq };
         let (bytes, family) = hist_input(&mut rng, fmt, ctx, true);
@@ -279,6 +280,7 @@ pub fn c05(ctx: &Ctx, rep: &mut Report) {
         if ctx.only.is_none() && (ctx.expired() || idx >= ctx.max_cases) {
             break;
         }
+        ctx.begin(idx);
         let mut rng = Rng::derive(&[ctx.seed, ctx.shard, idx, 5]);
         let fmt = if idx % 2 == 0 { Fmt::Fasta } else { Fmt::Fastq };
         let (mut bytes, family) = hist_input(&mut rng, fmt, ctx, true);
@@ -422,6 +424,7 @@ pub fn c06(ctx: &Ctx, rep: &mut Report) {
         if ctx.only.is_none() && (ctx.expired() || idx >= ctx.max_cases) {
             break;
         }
+        ctx.begin(idx);
         let mut rng = Rng::derive(&[ctx.seed, ctx.shard, idx, 6]);
         let fmt = if idx % 2 == 0 { Fmt::Fasta } else { Fmt::Fastq };
         let (bytes, family) = if rng.chance(1, 2) {
@@ -623,6 +626,7 @@ pub fn c09(ctx: &Ctx, rep: &mut Report) {
         if ctx.only.is_none() && (ctx.expired() || idx >= ctx.max_cases) {
             break;
         }
+        ctx.begin(idx);
         let mut rng = Rng::derive(&[ctx.seed, ctx.shard, idx, 9]);
         if idx % 64 == 0 {
             check_policy_formulas(&mut rng, rep, if ctx.miri { 50 } else { 2000 }, ctx, idx);
@@ -765,6 +769,7 @@ pub fn c14(ctx: &Ctx, rep: &mut Report) {
         if ctx.only.is_none() && (ctx.expired() || idx >= ctx.max_cases) {
             break;
         }
+        ctx.begin(idx);
         let mut rng = Rng::derive(&[ctx.seed, ctx.shard, idx, 14]);
         let fmt = if idx % 2 == 0 { Fmt::Fasta } else { Fmt::Fastq };
         let (bytes, _family) = hist_input(&mut rng, fmt, ctx, true);
